@@ -33,8 +33,8 @@ def _alarm(_s, _f):
 
 def guarded(fn, limit_s=5.0):
     """Run fn() under a timer: ("ok", value) | ("exc", exception) | ("timeout", None)."""
-    old = signal.signal(signal.SIGALRM, _alarm)
-    signal.setitimer(signal.ITIMER_REAL, limit_s)
+    old = signal.signal(signal.SIGVTALRM, _alarm)
+    signal.setitimer(signal.ITIMER_VIRTUAL, limit_s)
     try:
         return ("ok", fn())
     except Timeout:
@@ -44,8 +44,8 @@ def guarded(fn, limit_s=5.0):
             raise
         return ("exc", e)
     finally:
-        signal.setitimer(signal.ITIMER_REAL, 0)
-        signal.signal(signal.SIGALRM, old)
+        signal.setitimer(signal.ITIMER_VIRTUAL, 0)
+        signal.signal(signal.SIGVTALRM, old)
 
 
 def typed_json(v):
